@@ -1,6 +1,7 @@
 import Bip39V.Props.Refine
 import Bip39V.Props.C13
 import Bip39V.Props.Source.Basic
+import Bip39V.Gen.Code.Writes
 /-! C13, stated directly about the code regenerated from the Go source (`Gen/Code/*.lean`): the model
 theorem carried over by the refinement theorems of `Props/Refine`.  `st` is an arbitrary state of the
 package's lazily built maps and of the randomness source; `fresh` is a process that has made no call yet. -/
@@ -12,5 +13,21 @@ theorem src_c13_history_free (E : Env) (ops : List Op) (op : Op) (hop : op.isSwa
     (hr : op.inRange) (hrs : ∀ o ∈ ops, o.inRange) :
     (Code.step E (Code.run E .init ops) op).2 = (Code.step E .init op).2 := by
   rw [refine_run E _ ops hrs, refine_step E _ op hr, refine_step E _ op hr]; exact c13_history_free E ops op hop
+
+/-- C13, the part about mutation: **every statement of the translated functions that writes through a
+slice writes into a buffer the function allocated itself** (`make` in the same function, or a
+`make(…)` written in place as the argument) — never into a parameter, so the caller's entropy slice
+is not modified, and never into something reachable from an earlier result.  `Gen.Code.sliceWrites` is
+regenerated from the source on every run by the translator, which classifies every element
+assignment, every `io.ReadFull` buffer, every `FillBytes` argument and every `hash.Sum(b)` with a
+non-nil `b` (appending may write into `b`'s spare capacity); the other mutable values of the package
+(`*big.Int`, `hash.Hash`) are only ever created inside the function that mutates them (the translator
+refuses anything else, §11.8).  Strings are immutable in Go, and the only `[]byte` the package returns
+is the one `pbkdf2.Key` allocates. -/
+theorem src_c13_own_buffers :
+    ∀ w ∈ Gen.Code.sliceWrites, w.2.2 = "make" ∨ w.2.2 = "fresh" := by decide
+
+/-- non-vacuity: the package does write through slices, and some functions take a slice -/
+example : Gen.Code.sliceWrites ≠ [] ∧ Gen.Code.sliceParams ≠ [] := by decide
 
 end Bip39V
